@@ -17,6 +17,11 @@ with T_c built from the parameter *values* of the case:
 forward(x, grid=True) is the same map: the flag only states that x are undeformed grid points of the transform domain, which
 lets a dense model resize its field (the same multilinear interpolant) instead of sampling it - a later member of a sequence
 never sees undeformed points.
+Dense vector field models with 'stride' hold their parameters on a lattice of ceil(n / stride) points spanning the same domain;
+the buffered field is that lattice (resize=False) or its multilinear resampling to the grid (resize=True) - the reference is built
+on the respective lattice (vf_shape / vf_resample).
+The object under test may be the result of a history of public calls (facet 'history'): the reference is then built from the
+grid and the parameter values set last, tracked by the interpreter of the history (HSym / History), never read back from deepali.
 """
 from __future__ import annotations
 
@@ -45,7 +50,12 @@ MANIFEST = {
             "ImageTransformer with elementary, composite (linear, non-rigid, nested) and generic transforms on generated "
             "target/source grids, with flip_coords and align_centers) is compared with one float64 reference world map built "
             "in numpy from the parameter values and the independent grid model; fresh transforms are compared with the "
-            "identity. Exploration, not proof.",
+            "identity. Dense vector field models are also built with the 'stride' / 'resize' options (parameters on a coarser "
+            "lattice). In facet 'history' the object whose views are compared is what a generated sequence of public calls "
+            "(evaluations, data_/data(arg)/setters/matrix(arg), copy/deepcopy, grid_/grid(arg), condition_/condition, link/unlink, "
+            "inverse pairs, reset_parameters, in-place edits, load_state_dict and state_dict round trips, train/eval, to(dtype), "
+            "clear_buffers) leaves behind - either the returned copy or the original, after the other one has been used - and "
+            "the reference is built from the grid and parameter values set last. Exploration, not proof.",
     "note": "Trusted: vlib/ref.py (grid model, rotations, interpolation, B-spline basis, scaling-and-squaring closed form), the "
             "reference classes in props/c06.py. Dense parameter fields are cube-affine, hash-noise (reference = multilinear "
             "interpolation, which is the documented point map of a dense model and also what resizing the field under "
@@ -84,6 +94,29 @@ ASSUMPTIONS = [
     "only target samples whose reference position T(x) lies at least 0.02 samples inside the source sample hull are compared",
     "MultiLevelTransform.forward passes grid=True only to its first member; passing it to every member would be the same map "
     "(all members are evaluated at the undeformed points), so that choice is not observable and not asserted",
+    "dense vector field models with 'stride': strides 1.5..3 (scalar or per axis, (x, ...) order), parameter lattice >= 2 points per "
+    "axis; a velocity field is only resized (resize=True) on corner-aligned grids (resized from a lattice whose border samples are "
+    "not those of the grid it is clamped near the border and has no closed-form exponential); views are compared inside the "
+    "hull of the samples of the buffered field (the parameter lattice for resize=False)",
+    "histories: views that do not run the update() pre-hook (tensor, disp, flow, points, forward, disp() of an enclosing composite) "
+    "are read first only where the documented contract makes them current - after data_(), data(arg), matrix(arg), setters, "
+    "reset_parameters(), grid changes, condition on a dense model with callable parameters, inverse(update_buffers=True) of an "
+    "up-to-date transform; after an in-place edit of the parameters, load_state_dict(), inverse(update_buffers=False), link(), a "
+    "linear model with callable parameters before its first update and after condition (known finding K5 of C09) the first view "
+    "is a functor call or a PointSetTransformer (both run the hook). link() of a dense transform that has been evaluated keeps "
+    "the buffered field of the old parameters until update(); whether that is intended is not documented, so it is not asserted",
+    "histories: the final object is not an inverse (inverse() is applied an even number of times along the followed objects; "
+    "accuracy of inverses is C07); after grid_()/grid(arg) of a dense model its resampled parameters are not modelled (C09) - "
+    "new parameters are set before the views are compared; B-spline models are re-gridded by subdivision only (documented); "
+    "copies are only given other parameters (data_) when the operation that made them documents own parameters (data(arg), "
+    "grid(arg), unlink(), deepcopy) - plain shallow copies share the parameter container by design",
+    "histories: copy.deepcopy is preceded by the public clear_buffers() where buffered fields are non-leaf tensors (computed from "
+    "a Parameter; torch cannot deep-copy those); Module.to(dtype) is only applied to objects whose parameters are a Parameter / "
+    "registered tensor / linked transformation (a plain tensor attribute or the output of a callable is not converted by torch) and "
+    "parameter tensors handed over afterwards have the module's dtype (mixing dtypes is a usage error); load_state_dict uses "
+    "strict=False, the loaded values must arrive through the views",
+    "histories: the structural choices of a case are made with a running hash of the integers Hypothesis drew (see history_cases), "
+    "cases remain plain JSON and replayable",
 ]
 
 K = 64.0
@@ -707,6 +740,18 @@ def dense_specs(draw, g: dict, N: int, classes=None):
     if name in DENSE[2:]:
         spec["stride"] = draw(st.lists(st.integers(1, 3), min_size=D, max_size=D))
         spec["transpose"] = draw(st.booleans())
+    elif draw(st.integers(0, 2)) == 0:
+        # vector field sampled on a coarser lattice of the same domain (documented constructor options 'stride', 'resize')
+        spec["dstride"] = draw(st.sampled_from([2, 3, 1.5, 2.5, "axes"]))
+        if spec["dstride"] == "axes":
+            spec["dstride"] = draw(st.lists(st.sampled_from([1, 2, 3, 1.5]), min_size=1, max_size=D))
+        spec["resize"] = draw(st.booleans())
+        if name == DENSE[1] and not g["ac"]:
+            # a velocity field resized from a lattice whose border samples are not those of the grid is clamped near the border:
+            # no closed form for its exponential
+            spec["resize"] = False
+        if min(vf_shape(tuple(g["size"][::-1]), spec["dstride"])) < 2:
+            del spec["dstride"], spec["resize"]
     if spec["field"] == "affine":
         spec["A"] = draw(_vals(-0.12, 0.12, D * D))
         spec["t"] = draw(_vals(-0.2, 0.2, D))
@@ -739,6 +784,18 @@ def dense_fields(spec: dict, g: dict):
         stride = spec["stride"]
         kw["stride"] = list(stride)
         kw["transpose"] = spec["transpose"]
+    # lattice of the parameters (pshape) and of the buffered vector fields (shape) of a dense vector field model: with
+    # 'stride' the parameters live on ceil(n / stride) points spanning the same domain; the buffered fields are resized to the
+    # grid (resize=True) or stay on the parameter lattice
+    gshape = shape
+    pshape = vf_shape(shape, spec.get("dstride"))
+    if spec.get("dstride") is not None:
+        kw["stride"] = spec["dstride"]
+        kw["resize"] = bool(spec["resize"])
+        if not spec["resize"]:
+            shape = pshape
+            x = cube_coords(shape, ac)
+    xp = cube_coords(pshape, ac)
     params, fields = [], []
     if spec["field"] == "velocity":
         scale = spec["scale"]
@@ -757,21 +814,27 @@ def dense_fields(spec: dict, g: dict):
         for H in gens:
             Hs = H if s > 0 else -H  # parameters hold v with scale * v = |s| * G
             P = ref.sas_power(H, steps, abs(s))
+            # (the velocity on the lattice of the exponential is the cube-affine field itself: corners aligned or not resized)
             fields.append(np.moveaxis(x @ (P[:D, :D] - np.eye(D)).T + P[:D, D], -1, 0))
             if bspl:
                 params.append(affine_coefficients(Hs, shape, stride))
             else:
-                params.append(np.moveaxis(x @ Hs[:, :D].T + Hs[:, D], -1, 0))
+                params.append(np.moveaxis(xp @ Hs[:, :D].T + Hs[:, D], -1, 0))
         mag = max(1.0, max(float(np.abs(H).sum(1).max()) for H in gens) * abs(s))
         extra = 64 * EPS32 * (steps + 1) * mag
+    elif spec["field"] == "zero":  # parameters after reset_parameters()
+        pshape = control_shape(shape, spec["stride"]) if bspl else pshape
+        params = [np.zeros((D,) + tuple(pshape))] * N
+        fields = [np.zeros((D,) + tuple(shape))] * N
     elif spec["field"] == "affine":
         for b in range(N):
             H = np.concatenate([np.array(spec["A"]).reshape(D, D), np.array(spec["t"])[:, None]], axis=1) / (b + 1)
-            fields.append(np.moveaxis(x @ H[:, :D].T + H[:, D], -1, 0))
-            params.append(affine_coefficients(H, shape, stride) if bspl else fields[-1])
+            params.append(affine_coefficients(H, shape, stride) if bspl else np.moveaxis(xp @ H[:, :D].T + H[:, D], -1, 0))
+            # resized from a coarser lattice whose borders are not aligned with the corners, the field is clamped near the border
+            fields.append(np.moveaxis(x @ H[:, :D].T + H[:, D], -1, 0) if bspl else vf_resample(params[-1][None], shape, ac)[0])
         extra = 16 * EPS32 if bspl else 0.0
     else:
-        pshape = control_shape(shape, spec["stride"]) if bspl else shape
+        pshape = control_shape(shape, spec["stride"]) if bspl else pshape
         for b in range(N):
             p = hash_noise((D,) + tuple(pshape), spec["key"] + 17 * b, -spec["amp"], spec["amp"])
             params.append(p)
@@ -779,8 +842,29 @@ def dense_fields(spec: dict, g: dict):
             fields = list(ffd_field(np.stack(params), shape, spec["stride"]))
             extra = 16 * EPS32
         else:
-            fields = params
+            fields = list(vf_resample(np.stack(params), shape, ac))
     return np.stack(params), np.stack(fields), extra, kw
+
+
+def vf_shape(shape, dstride):
+    """Tensor shape of the parameter lattice of a dense vector field model: ceil(n / stride), stride given in (x, ...) order,
+    missing trailing entries = 1 (DenseVectorFieldTransform docstring)."""
+    if dstride is None:
+        return tuple(shape)
+    D = len(shape)
+    sx = [float(dstride)] * D if isinstance(dstride, (int, float)) else [float(v) for v in dstride] + [1.0] * (D - len(dstride))
+    return tuple(int(math.ceil(n / sv)) for n, sv in zip(shape, sx[::-1]))
+
+
+def vf_resample(u: np.ndarray, shape, ac: bool) -> np.ndarray:
+    """Samples u[N, D, ...] on a lattice spanning the domain -> multilinear interpolant (border clamp) at the points of the
+    lattice of tensor shape `shape` spanning the same domain (what 'resize=True' documents for the buffered vector field)."""
+    u = np.asarray(u, dtype=np.float64)
+    if tuple(u.shape[2:]) == tuple(shape):
+        return u
+    src = DenseRef(u, ac)
+    x = cube_coords(tuple(shape), ac)
+    return np.stack([np.moveaxis(src.disp(x, b), -1, 0) for b in range(u.shape[0])])
 
 
 def build_dense(spec: dict, grid, g: dict):
@@ -812,15 +896,25 @@ def build_dense(spec: dict, grid, g: dict):
     else:
         t = cls(grid, groups=N, params=True, **kw)
         t.data_(p)
-    # reference from the float32 parameter values actually handed over
+    return t, _dense_ref(spec, g, p, fields, extra)
+
+
+def _dense_ref(spec: dict, g: dict, p, fields, extra) -> DenseRef:
+    """Reference of a dense model from the float32 parameter values actually handed over."""
     if spec["field"] == "noise":
         p64 = p.double().numpy()
         if spec["cls"] in DENSE[2:]:
             fields = ffd_field(p64, tuple(g["size"][::-1]), spec["stride"])
         else:
-            fields = p64
-    r = DenseRef(fields, g["ac"], extra=extra + 4 * EPS32 * float(np.abs(fields).max()))
-    return t, r
+            fields = vf_resample(p64, tuple(np.shape(fields)[2:]), g["ac"])
+    return DenseRef(fields, g["ac"], extra=extra + 4 * EPS32 * float(np.abs(fields).max()))
+
+
+def dense_param_ref(spec: dict, g: dict):
+    """-> (float32 parameter tensor, reference, constructor kwargs) of the dense parameter spec on grid descriptor `g`."""
+    params, fields, extra, kw = dense_fields(spec, g)
+    p = torch.tensor(params, dtype=torch.float32)
+    return p, _dense_ref(spec, g, p, fields, extra), kw
 
 
 def dense_effect(r: DenseRef) -> float:
@@ -1113,7 +1207,8 @@ def check_disp_on(t, wm: WorldMap, og: dict, okind: str, dense: bool, tag: str):
     mo = ref.GridModel.from_desc(og)
     ao = cax(mo.ac)
     xw = mo.world_points()
-    mask = inside_hull(wm.m, xw) if dense else np.ones(xw.shape[:-1], dtype=bool)
+    # dense models: inside the hull of the samples of the vector field (a coarser lattice when 'stride' is used with resize=False)
+    mask = wm.r.valid(wm.to_cube(xw), 0) if dense else np.ones(xw.shape[:-1], dtype=bool)
     expect_w = np.stack([wm.world(xw, b) - xw for b in range(N)])  # (N, ..., D)
     Lo = mo.matrix("world", ao)[:, :D]
     expect = np.moveaxis(expect_w @ Lo.T, -1, 1)  # (N, D, ...)
@@ -1150,11 +1245,21 @@ def check_disp_on(t, wm: WorldMap, og: dict, okind: str, dense: bool, tag: str):
 def run_views(case, dense: bool):
     import deepali.spatial as S
 
+    g, spec = case["grid"], case["t"]
+    grid = make_grid(g)
+    t, r = build_any(spec, grid, g)
+    return check_views(case, dense, t, r, g, spec)
+
+
+def check_views(case, dense: bool, t, r, g: dict, spec: dict, extra_labels=()):
+    """All views of the transform `t` (defined on grid descriptor `g`, reference `r` in the cube of `g`) vs the reference world map.
+    `spec`: class name, labels and - for route 'inplace' - the recipe to build a twin nobody has evaluated yet."""
+    import deepali.spatial as S
+
     excluded = _known_excludes_other_grid(case, dense)
-    D, g, spec = case["D"], case["grid"], case["t"]
+    D = case["D"]
     grid = make_grid(g)
     m = ref.GridModel.from_desc(g)
-    t, r = build_any(spec, grid, g)
     wm = WorldMap(r, m)
     N = r.N
     tag = spec["cls"]
@@ -1167,7 +1272,7 @@ def run_views(case, dense: bool):
         # data_() replaced the parameters after buffers existed: the dense field obtained right away - without a call
         # that runs the update() pre-hook - must already describe the new parameters
         T_now = t.tensor()
-        want_now = np.stack([np.moveaxis(r.disp(cube_coords(tuple(g["size"][::-1]), m.ac), b), -1, 0) for b in range(N)])
+        want_now = np.stack([np.moveaxis(r.disp(cube_coords(tuple(r.u.shape[2:]), m.ac), b), -1, 0) for b in range(N)])
         if tuple(T_now.shape) == want_now.shape:
             worst = max(worst, check_close(T_now, want_now, K * EPS32 * (1.0 + r.shift()) + r.extra, f"tensor_after_data_:{tag}",
                                            f"{tag}.tensor() right after data_() on a transform that had been evaluated before"))
@@ -1193,7 +1298,7 @@ def run_views(case, dense: bool):
         eg = np.stack([r.cube(xg, b) for b in range(N)])
         if tuple(yg.shape) != eg.shape:
             raise Violation(f"forward_grid_shape:{tag}", f"{tag}(x{(1,) + xg.shape}, grid=True) has shape {tuple(yg.shape)}, expected {eg.shape}")
-        hull = np.all(np.abs(xg) <= (1.0 if m.ac else 1.0 - 1.0 / m.n) + 1e-9, axis=-1)
+        hull = r.valid(xg, 0)
         selg = np.broadcast_to(hull[None, ..., None], eg.shape)
         worst = max(worst, check_close(np.where(selg, yg.detach().double().numpy(), 0.0), np.where(selg, eg, 0.0), wm.cube_bound(xg),
                                        f"forward_grid:{tag}", f"{tag}(x, grid=True) at the sample points of a same-domain grid of size {list(size)}"))
@@ -1217,7 +1322,8 @@ def run_views(case, dense: bool):
             full[:, :, : T.shape[2]] = Tn
         check_close(full, want, mb, f"tensor:{tag}", f"{tag}.tensor() applied with the reference homogeneous model")
     else:
-        want = np.stack([np.moveaxis(r.disp(cube_coords(tuple(g["size"][::-1]), m.ac), b), -1, 0) for b in range(N)])
+        # (the buffered field of a dense vector field model with resize=False lives on the lattice of its parameters)
+        want = np.stack([np.moveaxis(r.disp(cube_coords(tuple(r.u.shape[2:]), m.ac), b), -1, 0) for b in range(N)])
         if tuple(T.shape) != want.shape:
             raise Violation(f"tensor_shape:{tag}", f"tensor() has shape {tuple(T.shape)}, expected {want.shape}")
         check_close(T, want, K * EPS32 * (1.0 + r.shift()) + r.extra, f"tensor:{tag}", f"{tag}.tensor() vs reference sampled displacement field")
@@ -1265,20 +1371,21 @@ def run_views(case, dense: bool):
     Lq = mq.matrix("world", qa)[:, :D]
     pb = K * EPS32 * (float(np.abs(Lq).sum(1).max()) * (wm.cond(xw_in, yw) + mp.cond(pa, "world", xin.double().numpy())) + 1.0
                       + float(np.abs(expect_q).max()))
-    ins = inside_hull(m, xw_in, -1e-6) if dense else np.ones(xw_in.shape[:-1], dtype=bool)
+    ins = r.valid(wm.to_cube(xw_in) * (1.0 - 1e-6), 0) if dense else np.ones(xw_in.shape[:-1], dtype=bool)
     ins = np.broadcast_to(ins[[b % case["Nb"] for b in range(Ny)]][..., None], expect_q.shape)
     kind = "points_api" if case["via"] == "points" else "pointset_transformer"
     pname = "own" if pg is None else pg["kind"]
     qname = "same" if qg is None else qg["kind"]
     worst = max(worst, check_close(np.where(ins, out.detach().double().numpy(), 0.0), np.where(ins, expect_q, 0.0), pb, f"{kind}:{tag}",
                                    f"{case['via']}(x; {pa}@{pname} -> {qa}@{qname}) vs reference world map"))
-    effect = dense_effect(r) if dense else linear_effect(spec, D)
+    effect = r.effect()
     nt = effect >= 0.05 and (gen.grid_is_oblique(g) or gen.grid_is_anisotropic(g)) and ninside >= 2
     return {"ratio": worst, "nontrivial": nt,
             "labels": [tag, f"D={D}", f"ac={g['ac']}", f"N={N}", f"other={case['other_kind']}", f"other_ac={case['other']['ac']}",
                        case["dtype"], f"form={case['form']}", f"via={case['via']}", f"{pa}->{qa}", g["kind"]]
-                      + ([f"field={spec['field']}", f"route={spec['route']}"] if dense else [f"pkind={spec['pkind']}"])
-                      + ([f"excluded_known={excluded}"] if excluded else [])}
+                      + ([f"field={spec['field']}", f"route={spec['route']}", f"vf_stride={'dstride' in spec}", f"vf_resize={spec.get('resize')}"]
+                         if dense else [f"pkind={spec['pkind']}"])
+                      + ([f"excluded_known={excluded}"] if excluded else []) + list(extra_labels)}
 
 
 # ---------------------------------------------------------------------------------------
@@ -1534,6 +1641,8 @@ def generic_specs(draw, g: dict, force_ac=False, short=False):
     if nonrigid:
         nr = draw(dense_specs(g, 1, classes=[NONRIGID_KEYS[nonrigid]]))
         nr["route"] = "data_"
+        nr.pop("dstride", None)  # not configurable through TransformConfig
+        nr.pop("resize", None)
         if "stride" in nr:
             sd = draw(st.integers(1, 3))
             nr["stride"] = [sd] * D
@@ -1798,6 +1907,649 @@ def run_warp(case):
                        f"levels={'gsize' in str(spec)}"] + names}
 
 
+# ---------------------------------------------------------------------------------------
+# facet 5: the object under test is the result of a history of public calls
+#
+# C06 speaks about one transform object, whatever sequence of public operations produced it.  A history is a list of
+# operations interpreted here against (a) the deepali object and (b) a symbolic state (HSym) from which the reference is
+# built: the grid last set, the parameter *values* last set (never read back from deepali), the invert flag, how the
+# parameters are held, and whether the documented contract requires an update()/functor call before views that do not run
+# the update() pre-hook may be read ("stale": parameters edited in place, inverse(update_buffers=False), link).
+
+K5_ACTIVE = Known("C09").active("K5")
+INVERTIBLE = list(ELEMENTARY) + [DENSE[1], DENSE[3]]
+SETTABLE = ("param", "buffer", "attr")
+HOOK_VIEWS = ("call", "transformer")
+FREE_VIEWS = ("tensor", "disp", "disp_other", "points", "forward", "sequential", "multilevel")
+
+
+class HSym:
+    """Symbolic state of the transform under test; `step` is used by the generator (availability of operations) and by
+    the interpreter (what the reference has to describe), so both follow the same rules."""
+
+    def __init__(self, cls: str, g: dict, N: int, pk: str):
+        self.cls, self.dense = cls, cls in DENSE
+        self.g, self.N, self.pk = g, N, pk
+        self.inv = False
+        self.known = True           # parameter values known to the model
+        self.pnone = False          # params is None (after unlink): nothing may be evaluated
+        # a linear model with callable parameters holds uninitialised 'p' until update() has run
+        self.stale = pk == "callable" and not self.dense
+        self.key = 0
+        self.dtype = "float32"      # dtype of the module (Module.to converts parameters and buffers, e.g. B-spline kernels)
+
+    def available(self):
+        if self.pnone:
+            return ["data_", "data"]
+        ops = ["eval", "copy", "deepcopy", "mode", "clear", "condition_", "condition"]
+        if self.pk == "callable":
+            ops += ["condition_", "condition", "condition_"]
+        if self.pk in ("param", "buffer", "linked"):
+            # Module.to() does not convert a plain tensor attribute or the output of a callable; mixing dtypes is a usage error
+            ops += ["to"]
+        if self.pk in SETTABLE:
+            ops += ["data_", "data_", "data", "data", "data", "reset", "reset", "inplace", "unlink"]
+            if self.pk != "attr" and not self.inv:
+                ops += ["load", "load", "roundtrip", "roundtrip"]
+            ops += ["grid_", "grid", "grid"] + (["grid", "grid"] if self.dense else [])
+        else:
+            ops += ["data", "data"]
+            if not self.dense:
+                ops += ["grid_", "grid"]
+            if self.pk == "linked":
+                ops += ["unlink"]
+        ops += ["link", "link"]
+        if self.cls in INVERTIBLE:
+            ops += ["inverse"] * (5 if self.dense else 3)
+        return ops
+
+    def step(self, op: dict):
+        """State of the followed object after `op` (the parameter values themselves are tracked by the interpreter)."""
+        o = op["op"]
+        follow_copy = op.get("follow", "copy") == "copy"
+        if o == "eval":
+            if op["how"] in ("call", "update"):
+                self.stale = False
+        elif o == "data_":
+            self.pk = "attr" if self.pk == "none" else self.pk
+            self.N, self.known, self.pnone, self.stale = op["p"]["N"], True, False, False
+        elif o == "data":
+            if follow_copy:
+                self.pk = self.pk if self.pk in ("param", "buffer") else "attr"
+                self.N, self.known, self.pnone, self.stale = op["p"]["N"], True, False, False
+        elif o in ("grid_", "grid"):
+            if o == "grid_" or follow_copy:
+                self.g = op["g"]
+                if self.dense:
+                    self.known, self.stale = False, False  # parameters are resampled: not modelled, set again before the end
+        elif o in ("condition_", "condition"):
+            if (o == "condition_" or follow_copy) and self.pk == "callable":
+                self.key = op["key"]
+                if not self.dense and K5_ACTIVE:
+                    self.stale = True
+        elif o in ("link", "unlink", "inverse") and not follow_copy:
+            pass
+        elif o == "link":
+            self.pk, self.N, self.known, self.stale = "linked", op["p"]["N"], True, True
+        elif o == "unlink":
+            self.pk, self.known, self.pnone = "none", False, True
+        elif o == "inverse":
+            self.inv = not self.inv
+            if op["link"]:
+                self.pk = "linked"
+            if self.dense and not op["ub"]:
+                self.stale = True
+        elif o == "reset":
+            self.known, self.stale = True, False
+        elif o in ("inplace", "load"):
+            self.known, self.stale = True, True
+        elif o == "roundtrip":
+            self.stale, self.dtype = False, "float32"
+        elif o == "to":
+            self.dtype = op["dtype"]
+        # copy / deepcopy / mode / to / clear: no change
+
+
+def _identity_rows(kind: str, D: int, N: int):
+    na = 1 if D == 2 else 3
+    row = {"translation": [0.0] * D, "euler": [0.0] * na, "shear": [0.0] * na, "quaternion": [1.0, 0.0, 0.0, 0.0], "iso": [1.0],
+           "aniso": [1.0] * D, "homogeneous": [float(v) for v in np.eye(D, D + 1).reshape(-1)]}[kind]
+    return [list(row) for _ in range(N)]
+
+
+@st.composite
+def _pspec(draw, sym: HSym, base: dict, N=None):
+    """Parameter values for the class of `sym` on its current grid (constructor options are those of the object)."""
+    D = len(sym.g["size"])
+    N = sym.N if N is None else N
+    if not sym.dense:
+        kind = ELEMENTARY[sym.cls]
+        return {"N": N, "rows": [draw(elem_values(kind, D)) for _ in range(N)]}
+    sp = draw(dense_specs(sym.g, N, classes=[sym.cls]))
+    for k in ("route", "dstride", "resize"):
+        sp.pop(k, None)
+    for k in ("stride", "transpose", "scale", "dstride", "resize"):
+        if k in base:
+            sp[k] = base[k]
+    return sp
+
+
+def _sub_grid(g: dict, dims) -> dict:
+    """Same domain, 2n - 1 samples along the chosen dimensions (subdivision of a B-spline control point grid)."""
+    size = [2 * n - 1 if d else n for n, d in zip(g["size"], dims)]
+    return dict(resized_grid(dict(g, ac=True), size), kind=g.get("kind", "resized"))
+
+
+@st.composite
+def history_cases(draw):
+    # Structural choices (class, operations, which object is followed, ...) are made by hashing *all* integers drawn so far:
+    # Hypothesis builds most examples of a run by mutating earlier ones (about 40 distinct values of a drawn integer in 200
+    # examples), which leaves whole classes / operations unvisited in runs of a few hundred examples.  With the running hash
+    # every mutated draw changes all later choices, so structures are visited evenly; a case stays a function of the drawn data.
+    import hashlib
+
+    state = [b"C06-history" + b"".join(v.to_bytes(4, "little") for v in draw(st.lists(st.integers(0, 2 ** 32 - 1), min_size=8, max_size=8)))]
+
+    def pick(seq):
+        seq = list(seq)
+        state[0] = hashlib.blake2b(state[0] + draw(st.integers(0, 2 ** 32 - 1)).to_bytes(4, "little"), digest_size=8).digest()
+        return seq[int.from_bytes(state[0], "little") % len(seq)]
+
+    D = pick([2, 3])
+    dense = pick([False, True, True])
+    hi = (9 if D == 2 else 6) if dense else 12
+    g = draw(tgrids(D, 3 if dense else 2, hi))
+    N = pick([1, 1, 2])
+    init = pick(["param", "param", "buffer", "callable"])
+    if dense:
+        dcls = pick(DENSE)
+        if dcls in DENSE[2:]:
+            g["ac"] = True
+        t0 = draw(dense_specs(g, N, classes=[dcls]))
+        t0.pop("route")
+        if t0["cls"] in DENSE[2:]:
+            t0["stride"] = [min(s, 2) for s in t0["stride"]]
+        cls = t0["cls"]
+    else:
+        names = [n for n in ELEMENTARY if D == 3 or "Quaternion" not in n] + ["HomogeneousTransform"]  # has the matrix(arg) with-er
+        cls = pick(names)
+        t0 = {"cls": cls}
+        if cls == "EulerRotation" and D == 3:
+            order = pick(ORDERS)
+            if order is not None:
+                t0["order"] = order
+    sym = HSym(cls, g, N, init)
+    specs = []  # every dense parameter spec of the history (number of squaring steps is made common below)
+
+    def pspec(N=None, grid=None):
+        keep = sym.g
+        if grid is not None:
+            sym.g = grid
+        sp = draw(_pspec(sym, t0, N))
+        sym.g = keep
+        if dense:
+            specs.append((sp, grid or sym.g))
+        return sp
+
+    if dense:
+        specs.append((t0, g))
+        table = [t0] + [pspec() for _ in range(1 if init == "callable" else 0)]
+    else:
+        table = [pspec() for _ in range(2 if init == "callable" else 1)]
+    ops = []
+
+    def new_grid():
+        if not dense:
+            return draw(tgrids(D, 2, 12))
+        if cls in DENSE[2:]:
+            dims = draw(st.lists(st.booleans(), min_size=D, max_size=D))
+            if max(2 * n - 1 if d else n for n, d in zip(sym.g["size"], dims)) > (11 if D == 2 else 7):
+                dims = [False] * D
+            return _sub_grid(sym.g, dims)
+        # the other sampling convention for the same samples, or any other grid
+        g2 = dict(sym.g, ac=not sym.g["ac"]) if pick([True, True, False]) else draw(tgrids(D, 4 if "dstride" in t0 else 3, hi))
+        if cls == DENSE[1] and t0.get("resize"):
+            g2["ac"] = True  # see dense_specs: no closed form for a resized velocity field whose lattice is not corner aligned
+        if min(vf_shape(tuple(g2["size"][::-1]), t0.get("dstride"))) < 2:
+            g2 = dict(g2, size=[max(n, 4) for n in g2["size"]])
+        return g2
+
+    def pokes(own_params: bool, on_grid=None, settable=None):
+        """What is done to the object that is *not* followed after a fork (it must not influence the followed one)."""
+        settable = sym.pk in SETTABLE if settable is None else settable
+        names = ["update", "call", "clear"] + (["data_", "data_"] if own_params and settable else [])
+        ps = [pick(names) for _ in range(pick([0, 1, 1, 2]))]
+        out = {"poke": ps}
+        if "data_" in ps:
+            out["p2"] = pspec(grid=on_grid)
+        return out
+
+    def add(op):
+        ops.append(op)
+        sym.step(op)
+
+    def draw_op(name, closing=False):
+        op = {"op": name}
+        if name == "eval":
+            op["how"] = pick(HOOK_VIEWS[:1] + ("update",) if sym.stale else
+                                             ("call", "update", "disp", "tensor", "disp_other", "points", "flow"))
+        elif name in ("data_", "inplace", "load"):
+            op["p"] = pspec(N=pick([sym.N, sym.N, 1, 2]) if name == "data_" else None)
+            if name == "data_" and not dense:
+                op["via"] = pick(["data_", "setter"] + (["matrix"] if cls == "HomogeneousTransform" else []))
+            if name == "load":
+                op["dk"] = pick(["param", "buffer"])  # how the object whose state is loaded holds its parameters
+        elif name == "data":
+            op["p"] = pspec(N=pick([sym.N, sym.N, 1, 2]))
+            op["follow"] = "copy" if (sym.pnone or not sym.known) else pick(["copy", "orig"])
+            if cls == "HomogeneousTransform" and sym.pk in SETTABLE and pick([False, True]):
+                op["via"] = "matrix"
+            op.update(pokes(True) if not sym.pnone else {"poke": []})
+        elif name in ("copy", "deepcopy"):
+            op["follow"] = pick(["copy", "orig"])
+            op.update(pokes(name == "deepcopy"))
+        elif name in ("grid_", "grid"):
+            op["g"] = new_grid()
+            if name == "grid":
+                op["follow"] = pick(["copy", "orig"])
+                # the copy lives on the new grid, the original on the old one
+                op.update(pokes(True, on_grid=op["g"] if op["follow"] == "orig" else None))
+        elif name in ("condition_", "condition"):
+            op["key"] = pick([1 - sym.key, 1 - sym.key, sym.key]) if init == "callable" else draw(st.integers(0, 3))
+            op["kw"] = pick([False, True])
+            if name == "condition":
+                op["follow"] = pick(["copy", "orig"])
+                op.update(pokes(False))
+        elif name == "link":
+            op["p"] = pspec()
+            op["opk"] = pick(["param", "buffer"])
+            op["follow"] = pick(["copy", "copy", "orig"])
+            op.update(pokes(False))
+        elif name == "unlink":
+            op["inplace"] = pick([False, False, True])
+            if not op["inplace"]:
+                op["follow"] = pick(["copy", "orig"])
+                # the copy without parameters can be given its own
+                op.update(pokes(True, settable=True) if op["follow"] == "orig" else pokes(False))
+        elif name == "inverse":
+            op["link"] = pick([False, True]) and sym.pk in SETTABLE
+            op["ub"] = pick([True, True, False])
+            op["follow"] = "copy" if closing else pick(["copy", "copy", "copy", "orig"])
+            op.update(pokes(False))
+        elif name == "mode":
+            op["train"] = pick([False, True])
+        elif name == "to":
+            op["dtype"] = pick(["float64", "float32"])
+        return op
+
+    n = pick(range(1, 8))
+    for i in range(n):
+        if i == n - 1 and not sym.pnone and pick([False, True]):
+            # buffers exist when the last operation is applied
+            add(draw_op("eval"))
+        pool = sym.available()
+        if i == n - 1 and draw(st.integers(0, 2)) > 0:
+            # the operations whose contract is that the object describes the new state right away
+            last = [o for o in pool if o in ("data_", "data", "reset", "inverse") or (o.startswith("condition") and sym.pk == "callable")]
+            pool = last or pool
+        name = pick(pool)
+        add(draw_op(name))
+        if name == "inverse" and sym.inv and pick([False, True]):
+            add(draw_op("inverse", closing=True))  # ... and straight back
+    # complete the history: parameters must be known to the model and the object must not be the inverse
+    if sym.pnone or not sym.known:
+        add(draw_op(pick(["data_", "data"] if (sym.pnone or sym.pk in SETTABLE) else ["data"])))
+    if sym.inv:
+        add(draw_op("inverse", closing=True))
+        if pick([False, True]):
+            add(draw_op("eval"))
+    if dense and t0["field"] == "velocity":
+        steps = 0
+        for sp, gg in specs:
+            if sp["field"] == "velocity":
+                steps = max(steps, dense_fields(sp, gg)[3]["steps"])
+        for sp, _ in specs:
+            if sp["field"] == "velocity":
+                sp["steps"] = steps
+    gf = sym.g
+    og, okind = draw(related_grids(gf))
+    pg = draw(st.one_of(st.none(), related_grids(gf, kinds=("own", "other", "cropped", "flip_ac")).map(lambda a: a[0])))
+    qg = draw(st.one_of(st.none(), related_grids(gf, kinds=("own", "other", "resized")).map(lambda a: a[0])))
+    return {"D": D, "grid": g, "dense": dense, "t": dict(t0, N=N) if dense else dict(t0, N=N), "init": init, "table": table, "ops": ops,
+            "first": pick(HOOK_VIEWS if sym.stale else FREE_VIEWS + FREE_VIEWS + HOOK_VIEWS),
+            "rel": draw(rel_points(D, 2, 6)), "Nb": pick([1, sym.N]),
+            "form": pick(["set", "grid"]), "dtype": pick(["float32", "float32", "float64"]),
+            "other": og, "other_kind": okind,
+            "pgrid": pg, "paxes": pick(["world", "cube", "cube_corners", "grid", None]),
+            "qgrid": qg, "qaxes": pick(["world", "cube", "cube_corners", "grid", None]),
+            "via": pick(["points", "transformer"]),
+            "gsize": draw(st.lists(st.integers(2, 9 if D == 2 else 6), min_size=D, max_size=D))}
+
+
+def _module_cycle(root) -> bool:
+    """Is some module reachable from `root` its own descendant? (depth-first search with the current path)"""
+    path, done = set(), set()
+
+    def visit(m) -> bool:
+        if id(m) in path:
+            return True
+        if id(m) in done:
+            return False
+        path.add(id(m))
+        found = any(visit(c) for c in m._modules.values() if c is not None)
+        path.discard(id(m))
+        done.add(id(m))
+        return found
+
+    return visit(root)
+
+
+class History:
+    """Interpreter of a generated history: performs the public calls on the deepali object and tracks the model."""
+
+    def __init__(self, case: dict):
+        import deepali.spatial as S
+
+        self.case = case
+        self.t0 = case["t"]
+        self.cls = self.t0["cls"]
+        self.C = getattr(S, self.cls)
+        self.dense = self.cls in DENSE
+        self.D = case["D"]
+        self.sym = HSym(self.cls, case["grid"], self.t0["N"], case["init"])
+        self.table = case["table"]
+        self.ps = self.table[0]         # parameter values the object currently holds (model)
+        self.kw = {}
+        if self.dense:
+            self.kw = dict(dense_fields(self.t0, case["grid"])[3])
+        elif "order" in self.t0:
+            self.kw = {"order": self.t0["order"]}
+        self.x0 = torch.zeros((1, 1, self.D))
+        self.done = []
+
+    # -- parameter tensors ------------------------------------------------------------------
+    def raw(self, ps: dict, g: dict, hp: bool):
+        """Parameter tensor holding the values `ps` for an object on `g` whose has_parameters() is `hp` (linear models store
+        activations of optimisable angles / scales: the public setter of a twin object does that conversion)."""
+        dt = tdtype(self.sym.dtype)
+        if self.dense:
+            return dense_param_ref(dict(ps, cls=self.cls), g)[0].to(dt)
+        twin = self.C(make_grid(g), groups=ps["N"], params=bool(hp), **self.kw)
+        _set_elem(twin, ELEMENTARY[self.cls], ps["rows"], self.D)
+        return twin.data().detach().clone().to(dt)
+
+    def ref(self, ps: dict, g: dict):
+        if self.dense:
+            return dense_param_ref(dict(ps, cls=self.cls), g)[1]
+        return LinRef([elem_matrix(ELEMENTARY[self.cls], row, self.D, self.t0.get("order")) for row in ps["rows"]])
+
+    def fresh(self, g: dict, N: int, params):
+        return self.C(make_grid(g), groups=N, params=params, **self.kw)
+
+    def holder(self, ps: dict, g: dict, pk: str):
+        """New object of the class holding `ps` as optimisable parameter or as plain tensor."""
+        if pk == "param":
+            t = self.fresh(g, ps["N"], True)
+            if self.dense:
+                t.data_(self.raw(ps, g, True))
+            else:
+                _set_elem(t, ELEMENTARY[self.cls], ps["rows"], self.D)
+            return t
+        return self.fresh(g, None, self.raw(ps, g, False))
+
+    def start(self):
+        g, init = self.case["grid"], self.case["init"]
+        if init == "callable":
+            tensors = [self.raw(ps, g, False) for ps in self.table]
+
+            def predict(key=0):
+                return tensors[key]
+
+            return self.fresh(g, self.t0["N"], predict)
+        return self.holder(self.ps, g, init)
+
+    # -- operations ---------------------------------------------------------------------------
+    def poke(self, b, op: dict, g: dict):
+        """Use the object that is not followed; whatever happens to it must not change the followed one."""
+        for name in op.get("poke", ()):
+            if name == "clear":
+                b.clear_buffers()
+            elif getattr(b, "params", None) is None:
+                continue
+            elif name == "update":
+                b.update()
+            elif name == "call":
+                b(self.x0)
+            elif name == "data_":
+                b.data_(self.raw(op["p2"], g, b.has_parameters()))
+
+    def evaluate(self, t, how: str):
+        sym = self.sym
+        if sym.pnone or (sym.stale and how not in ("call", "update")):
+            return
+        if how == "call":
+            t(self.x0)
+        elif how == "update":
+            t.update()
+        elif how == "disp":
+            t.disp()
+        elif how == "tensor":
+            t.tensor()
+        elif how == "disp_other":
+            t.disp(make_grid(dict(sym.g, ac=not sym.g["ac"])))
+        elif how == "points":
+            t.points(self.x0, axes="world")
+        elif how == "flow":
+            t.flow()
+
+    def apply(self, t, op: dict):
+        import copy as _copy
+
+        import deepali.spatial as S
+
+        sym = self.sym
+        o = op["op"]
+        g = sym.g
+        follow_copy = op.get("follow", "copy") == "copy"
+        if o == "eval":
+            self.evaluate(t, op["how"])
+        elif o == "data_":
+            if op.get("via") == "setter" and sym.dtype == "float32":
+                _set_elem(t, ELEMENTARY[self.cls], op["p"]["rows"], self.D)
+            elif op.get("via") == "matrix":
+                t.matrix_(self.raw(op["p"], g, False))
+            else:
+                t.data_(self.raw(op["p"], g, t.has_parameters() if not sym.pnone else False))
+            self.ps = op["p"]
+        elif o == "data":
+            hp = False if sym.pk not in ("param", "buffer") else t.has_parameters()
+            c = t.matrix(self.raw(op["p"], g, False)) if op.get("via") == "matrix" else t.data(self.raw(op["p"], g, hp))
+            if c is t:
+                raise Violation("functional_setter_returns_self", f"{self.cls}.data(arg) returned the object it was called on")
+            if follow_copy:
+                self.poke(t, op, g)
+                t, self.ps = c, op["p"]
+            else:
+                self.poke(c, op, g)
+        elif o in ("copy", "deepcopy"):
+            if o == "deepcopy":
+                # torch cannot deep-copy non-leaf tensors: drop vector fields computed from a Parameter (also those of a
+                # transformation this one is linked to) with the public clear_buffers() first
+                for mod in t.modules():
+                    if isinstance(mod, S.SpatialTransform) and any(b.requires_grad and not b.is_leaf for b in mod.buffers(recurse=False)):
+                        mod.clear_buffers()
+                        left = [name for name, _ in mod.named_buffers(recurse=False) if name in ("u", "v")]
+                        if left:
+                            raise Violation(f"clear_buffers_keeps_fields:{type(mod).__name__}",
+                                            f"buffers {left} of {type(mod).__name__} are still registered after clear_buffers()")
+            c = _copy.copy(t) if o == "copy" else _copy.deepcopy(t)
+            if follow_copy:
+                self.poke(t, op, g)
+                t = c
+            else:
+                self.poke(c, op, g)
+        elif o == "grid_":
+            t = t.grid_(make_grid(op["g"]))
+        elif o == "grid":
+            c = t.grid(make_grid(op["g"]))
+            if follow_copy:
+                self.poke(t, op, g)
+                t = c
+            else:
+                self.poke(c, op, op["g"])
+        elif o in ("condition_", "condition"):
+            c = getattr(t, o)(**{"key": op["key"]}) if op.get("kw") else getattr(t, o)(op["key"])
+            if o == "condition_" or follow_copy:
+                if o == "condition":
+                    self.poke(t, op, g)
+                t = c
+                if sym.pk == "callable":
+                    self.ps = self.table[op["key"]]
+            else:
+                self.poke(c, op, g)
+        elif o == "link":
+            other = self.holder(op["p"], g, op["opk"]).to(tdtype(sym.dtype))
+            c = t.link(other)
+            if follow_copy:
+                self.poke(t, op, g)
+                t, self.ps = c, op["p"]
+            else:
+                self.poke(c, op, g)
+        elif o == "unlink":
+            if op["inplace"]:
+                t = t.unlink_()
+            else:
+                c = t.unlink()
+                if follow_copy:
+                    self.poke(t, op, g)
+                    t = c
+                else:
+                    self.poke(c, op, g)
+        elif o == "inverse":
+            c = t.inverse(link=op["link"], update_buffers=op["ub"])
+            if follow_copy:
+                self.poke(t, op, g)
+                t = c
+            else:
+                self.poke(c, op, g)
+        elif o == "reset":
+            t.reset_parameters()
+            self.ps = ({"N": sym.N, "field": "zero", **{k: self.t0[k] for k in ("stride", "transpose", "dstride", "resize") if k in self.t0}}
+                       if self.dense else {"N": sym.N, "rows": _identity_rows(ELEMENTARY[self.cls], self.D, sym.N)})
+        elif o in ("inplace", "load"):
+            new = self.raw(op["p"], g, t.has_parameters())
+            if tuple(t.data().shape) != tuple(new.shape):
+                raise Violation(f"history_parameter_shape:{self.cls}", f"data() of {self.cls} after [{', '.join(self.done)}] has shape "
+                                f"{tuple(t.data().shape)}, the parameters set last have shape {tuple(new.shape)}")
+            if o == "inplace":
+                with torch.no_grad():
+                    t.data().copy_(new)
+            else:
+                # (optimisable angles / scales of linear models are stored as activations: same kind of holder there)
+                donor = self.holder(op["p"], g, op.get("dk", sym.pk) if self.dense else sym.pk)
+                t.load_state_dict(donor.state_dict(), strict=False)
+            self.ps = op["p"]
+        elif o == "roundtrip":
+            c = self.fresh(g, sym.N, sym.pk == "param")
+            if tuple(t.data().shape) != tuple(c.data().shape):
+                raise Violation(f"history_parameter_shape:{self.cls}", f"data() of {self.cls} after [{', '.join(self.done)}] has shape "
+                                f"{tuple(t.data().shape)}, a new {self.cls} on the same grid with {sym.N} groups has {tuple(c.data().shape)}")
+            c.load_state_dict(t.state_dict(), strict=False)
+            t = c
+        elif o == "mode":
+            t = t.train(op["train"])
+        elif o == "to":
+            t = t.to(tdtype(op["dtype"]))
+        elif o == "clear":
+            t.clear_buffers()
+        else:
+            raise ValueError(o)
+        sym.step(op)
+        self.done.append(o + (":matrix" if op.get("via") == "matrix" else "") + ("" if follow_copy or "follow" not in op else ":orig"))
+        if _module_cycle(t):
+            # link_() documents that a transformation cannot be linked to itself
+            raise Violation(f"history_linked_to_itself:{self.cls}", f"{self.cls} after [{', '.join(self.done)}] is or contains a transformation that is a sub-module of itself")
+        return t
+
+    def run(self):
+        t = self.start()
+        for op in self.case["ops"]:
+            t = self.apply(t, op)
+        if self.sym.pnone or not self.sym.known or self.sym.inv:
+            raise Skip("incomplete history")
+        return t, self.ref(self.ps, self.sym.g)
+
+
+def run_history(case):
+    h = History(case)
+    t, r = h.run()
+    sym = h.sym
+    g, D, dense = sym.g, case["D"], h.dense
+    tag = h.cls
+    m = ref.GridModel.from_desc(g)
+    wm = WorldMap(r, m)
+    N = r.N
+    first = case["first"]
+    if sym.stale and first not in HOOK_VIEWS:
+        first = "call"
+    what = f"{tag} after [{', '.join(h.done)}]"
+    dt = tdtype(case["dtype"])
+    xc = arrange(cube_points(m, case["rel"]), case["Nb"] if case["Nb"] in (1, N) else 1, case["form"])
+    worst = 0.0
+    xs = cube_coords(tuple(g["size"][::-1]), m.ac)
+    if first in ("tensor", "disp"):
+        T = t.tensor() if first == "tensor" else t.disp()
+        if dense or first == "disp":
+            # (tensor() of a dense vector field model with resize=False lives on the lattice of its parameters)
+            xt = cube_coords(tuple(r.u.shape[2:]), m.ac) if dense and first == "tensor" else xs
+            want = np.stack([np.moveaxis(r.cube(xt, b) - xt, -1, 0) for b in range(N)])
+            bound = wm.cube_bound(xt)
+        else:
+            want = np.stack([r.matrix(b) for b in range(N)])
+            bound = K * EPS32 * (float(np.abs(want).max()) + 1.0) * D
+            full = np.broadcast_to(np.eye(D, D + 1), (T.shape[0], D, D + 1)).copy()
+            Tn = T.detach().double().numpy()
+            if T.ndim == 3 and T.shape[2] == 1:
+                full[:, :, D] = Tn[:, :, 0]
+            elif T.ndim == 3:
+                full[:, :, : T.shape[2]] = Tn
+            T = full
+        if tuple(T.shape) != want.shape:
+            raise Violation(f"history_{first}_shape:{tag}", f"{first}() of {what} has shape {tuple(T.shape)}, expected {want.shape}")
+        worst = check_close(T, want, bound, f"history_{first}:{tag}", f"{first}() of {what}, read before any call that runs the update() hook")
+    elif first == "disp_other":
+        worst, _ = check_disp_on(t, wm, case["other"], case["other_kind"], dense, "history:" + tag)
+    elif first in ("points", "transformer"):
+        mini = {"paxes": "world", "via": first}
+        worst, _ = check_points_api(t, r, wm, mini, xc, dt, "history:" + tag, dense)
+    elif first in ("sequential", "multilevel"):
+        # a composite built around the object evaluates its member without running the member's update() hook in disp()
+        import deepali.spatial as S
+
+        comp = (S.SequentialTransform if first == "sequential" else S.MultiLevelTransform)(t)
+        d = comp.disp()
+        want = np.stack([np.moveaxis(r.cube(xs, b) - xs, -1, 0) for b in range(N)])
+        if tuple(d.shape) != want.shape:
+            raise Violation(f"history_{first}_shape:{tag}", f"disp() of a {first} composite of {what} has shape {tuple(d.shape)}, expected {want.shape}")
+        worst = check_close(d, want, wm.cube_bound(xs), f"history_{first}:{tag}", f"{first.capitalize()}Transform({what}).disp()")
+    elif first == "forward":
+        y = t.forward(torch.tensor(xc, dtype=dt))
+        Ny = max(N, xc.shape[0])
+        expect = np.stack([r.cube(xc[b % xc.shape[0]], b) for b in range(Ny)])
+        if tuple(y.shape) != expect.shape:
+            raise Violation(f"history_forward_shape:{tag}", f"forward(x) of {what} has shape {tuple(y.shape)}, expected {expect.shape}")
+        worst = check_close(y, expect, wm.cube_bound(xc), f"history_forward:{tag}", f"forward(x) of {what}, called directly (no update() hook)")
+    spec = {"cls": tag, "route": "history", "field": h.ps.get("field", "-"), "pkind": sym.pk,
+            **{k: h.t0[k] for k in ("dstride", "resize") if k in h.t0}}
+    vcase = dict(case, Nb=xc.shape[0])
+    res = check_views(vcase, dense, t, r, g, spec,
+                      extra_labels=[f"first={first}", f"pk={sym.pk}", f"init={case['init']}", f"stale={sym.stale}", f"nops={len(h.done)}"]
+                                   + sorted({"op=" + d for d in h.done}))
+    res["ratio"] = max(res["ratio"], worst)
+    res["nontrivial"] = bool(res["nontrivial"] or (r.effect() >= 0.05 and len(h.done) >= 2))
+    return res
+
+
 FACETS = [
     Facet("identity", run_identity, strategy=identity_cases,
           rule="every class (elementary/composite linear, dense, Sequential/MultiLevel, Generic configs) built with default parameters "
@@ -1809,7 +2561,7 @@ FACETS = [
           quick=640, thorough=16000, shards=16, quick_shards=4),
     Facet("dense_views", lambda c: run_views(c, True), strategy=lambda: view_cases(True),
           rule="dense class x field kind (cube-affine, hash-noise, invariant affine velocity, affine/noise spline coefficients) x route (constructor "
-               "tensor / Parameter, data_(), in-place change of the parameters after update()) x groups; "
+               "tensor / Parameter, data_(), in-place change of the parameters after update()) x groups x (for DDF/SVF) stride / resize options; "
                "same views; non-trivial = |u|max >= 0.05 cube units, oblique or anisotropic grid, >= 2 compared samples of the other grid inside the domain",
           quick=520, thorough=12000, shards=16, quick_shards=4),
     Facet("composition", run_composite, strategy=composite_cases,
@@ -1831,4 +2583,12 @@ FACETS = [
                "(target centred on the transform grid), image batch 1/N; non-trivial = effect >= 0.05, ramp gradient >= 0.5/sample, "
                ">= 4 compared samples, target != transform grid",
           quick=680, thorough=12000, shards=16, quick_shards=4),
+    Facet("history", run_history, strategy=history_cases,
+          rule="elementary linear or dense class (parameters held as Parameter / tensor / callable) followed by 1-8 generated public "
+               "operations (evaluate, data_, data(arg), setters, copy, deepcopy, grid_/grid(arg), condition_/condition(...), link, unlink, "
+               "inverse twice with/without link and update_buffers, reset_parameters, in-place edit, load_state_dict, state_dict round trip "
+               "into a fresh object, train/eval, to(dtype), clear_buffers); after an operation that returns a new object either the copy or "
+               "the original is followed and the other one is evaluated / given other parameters; first view generated (one that does not "
+               "run the update hook unless the contract requires an update), then all views; non-trivial = effect >= 0.05 and >= 2 operations",
+          quick=1200, thorough=20000, shards=16, quick_shards=6),
 ]
